@@ -10,7 +10,9 @@ from hypothesis import strategies as st
 
 AX = st.sampled_from(["sample", "observation"])
 KEY = st.lists(st.integers(0, 5), min_size=8, max_size=8)
-MASK = st.lists(st.booleans(), min_size=8, max_size=8)
+# 13 (prime, >= the largest quick-tier axis): tiling a shorter mask would tie
+# position i to position i+8 and never select e.g. {1, 8} without 0 and 9
+MASK = st.lists(st.booleans(), min_size=13, max_size=13)
 
 
 def perm_from_key(n, key):
